@@ -63,7 +63,8 @@ type Enc struct {
 	effectFree  map[string]bool
 	havocCalls  map[string]bool
 	topFr       *frame
-	countHits   map[string]int
+	topDerefs   map[string]derefVar
+	countHits  map[string]int
 	loopOrd    map[*ssa.BasicBlock]int
 }
 
@@ -164,9 +165,19 @@ func (x *Enc) encodeTop() {
 		fr.ptypes[p.Name()] = p.Type()
 		facts = append(facts, x.typeFacts(p.Type(), v, h0))
 	}
+	x.topDerefs = map[string]derefVar{}
 	for _, p := range fn.FreeVars {
 		v := x.freshVal("fv_"+p.Name(), p.Type())
 		fr.vals[p] = v
+		facts = append(facts, x.typeFacts(p.Type(), v, h0))
+		// captured variables: the closure holds a pointer to the variable; in specifications the name
+		// denotes the variable's current content
+		if pt, isPtr := p.Type().Underlying().(*types.Pointer); isPtr {
+			facts = append(facts, app(">", v.ts[0], "0"))
+			x.topDerefs[p.Name()] = derefVar{ptr: v, typ: pt.Elem()}
+		} else {
+			fr.params[p.Name()] = v
+		}
 	}
 	x.sc.assertC(and(facts...), "parameter type facts")
 	// axioms of the package
@@ -407,11 +418,19 @@ func (x *Enc) newFrame(fn *ssa.Function, prefix string, depth int, con *Contract
 func (fr *frame) paramVals(names []string, results []Val) map[string]Val {
 	m := map[string]Val{}
 	np := len(fr.fn.Params)
+	nfree := 0
+	if fr.con != nil && fr.con.IsClosure && fr.depth == 0 {
+		nfree = len(fr.con.FreeVarNames) // captured variables are bound through x.topDerefs / fr.params
+	}
 	for i, n := range names {
 		if i < np {
 			m[n] = fr.vals[fr.fn.Params[i]]
-		} else if results != nil && i-np < len(results) {
-			m[n] = results[i-np]
+		} else if i < np+nfree {
+			if v, ok := fr.params[n]; ok {
+				m[n] = v
+			}
+		} else if results != nil && i-np-nfree < len(results) {
+			m[n] = results[i-np-nfree]
 		}
 	}
 	return m
@@ -918,6 +937,9 @@ func (fr *frame) loopVarEnvAt(h *ssa.BasicBlock, edgeFrom *ssa.BasicBlock, at *s
 	}
 	want := map[string]bool{}
 	for _, n := range names {
+		if _, captured := fr.x.topDerefs[n]; captured && fr.depth == 0 {
+			continue // captured variables denote the current content of their cell, not an SSA value
+		}
 		want[n] = true
 	}
 	for _, in := range h.Instrs {
@@ -1053,6 +1075,13 @@ func (fr *frame) autoFrameInv(h *ssa.BasicBlock, heap Heap) Term {
 	return and(cs...)
 }
 
+// newLoopEnv: environment of a loop clause; old(x) of a reassigned parameter x denotes its value at function entry.
+func (x *Enc) newLoopEnv(fr *frame, ci *clauseInfo, vars map[string]Val, heap, old Heap) *specEnv {
+	env := x.newSpecEnv(ci, vars, heap, old)
+	env.entryVars = fr.params
+	return env
+}
+
 // stepsOf: two-state clauses relating the state at the loop header (prev) to the state at a back edge.
 func (fr *frame) stepsOf(h *ssa.BasicBlock) []*Clause {
 	if fr.con == nil {
@@ -1075,7 +1104,7 @@ func (fr *frame) loopHeader(b *ssa.BasicBlock, reach Term, hin Heap, ps []*ssa.B
 	for k, p := range ps {
 		for _, c := range invs {
 			ci := x.eng.clauses[c]
-			env := x.newSpecEnv(ci, fr.loopVarEnv(b, p, ci.params), fr.heapOut[p], fr.entry)
+			env := x.newLoopEnv(fr, ci, fr.loopVarEnv(b, p, ci.params), fr.heapOut[p], fr.entry)
 			goal := x.evalBool(env, clauseExpr(ci))
 			x.addObl("invariant", fmt.Sprintf("%s.%s.entry", shortFn(fr.fn), c.Label), c.Text, loopPos(b), edges[k], goal)
 		}
@@ -1107,6 +1136,47 @@ func (fr *frame) loopHeader(b *ssa.BasicBlock, reach Term, hin Heap, ps []*ssa.B
 			h.m[k] = n
 			if k == keyAlloc {
 				x.sc.assert(implies(reach, app(">=", n, x.hget(hin, keyAlloc))))
+			}
+		}
+	}
+	// cells of captured variables that the loop never assigns (no store to them, no closure created in the loop
+	// that captures them) keep their content across the loop, whatever the callees in the loop do
+	if fr.depth == 0 && len(mods) > 0 {
+		body := naturalLoop(b)
+		for _, fv := range fr.fn.FreeVars {
+			pt, isPtr := fv.Type().Underlying().(*types.Pointer)
+			if !isPtr {
+				continue
+			}
+			assigned := false
+			for blk := range body {
+				for _, in := range blk.Instrs {
+					switch in := in.(type) {
+					case *ssa.Store:
+						if in.Addr == ssa.Value(fv) {
+							assigned = true
+						}
+					case *ssa.MakeClosure:
+						for _, bv := range in.Bindings {
+							if bv == ssa.Value(fv) {
+								assigned = true
+							}
+						}
+					}
+				}
+			}
+			if assigned {
+				continue
+			}
+			p := fr.vals[fv].ts[0]
+			for _, k := range x.keysOfAlloc(pt.Elem()) {
+				if !mods[k] {
+					continue
+				}
+				if _, ok := x.keys[k]; !ok {
+					continue
+				}
+				x.sc.assertC(implies(reach, eq(app("select", x.hget(h, k), p), app("select", x.hget(hin, k), p))), "captured variable "+fv.Name()+" is not assigned in the loop")
 			}
 		}
 	}
@@ -1156,7 +1226,7 @@ func (fr *frame) loopHeader(b *ssa.BasicBlock, reach Term, hin Heap, ps []*ssa.B
 	// assume invariants
 	for _, c := range invs {
 		ci := x.eng.clauses[c]
-		env := x.newSpecEnv(ci, fr.loopVarEnv(b, nil, ci.params), h, fr.entry)
+		env := x.newLoopEnv(fr, ci, fr.loopVarEnv(b, nil, ci.params), h, fr.entry)
 		x.sc.assertC(implies(reach, x.evalBool(env, clauseExpr(ci))), "assume invariant "+c.Text)
 	}
 	return h
@@ -1178,7 +1248,7 @@ func (fr *frame) backEdgeObligations(from, h *ssa.BasicBlock, heap Heap) {
 	edge := fr.edgeTerm(from, h)
 	for _, c := range fr.invariantsOf(h) {
 		ci := x.eng.clauses[c]
-		env := x.newSpecEnv(ci, fr.loopVarEnv(h, from, ci.params), heap, fr.entry)
+		env := x.newLoopEnv(fr, ci, fr.loopVarEnv(h, from, ci.params), heap, fr.entry)
 		goal := x.evalBool(env, clauseExpr(ci))
 		x.addObl("invariant", fmt.Sprintf("%s.%s.preserved", shortFn(fr.fn), c.Label), c.Text, loopPos(h), edge, goal)
 	}
@@ -1187,7 +1257,7 @@ func (fr *frame) backEdgeObligations(from, h *ssa.BasicBlock, heap Heap) {
 	}
 	for _, c := range fr.stepsOf(h) {
 		ci := x.eng.clauses[c]
-		env := x.newSpecEnv(ci, fr.loopVarEnvAt(h, from, from, ci.params), heap, fr.entry)
+		env := x.newLoopEnv(fr, ci, fr.loopVarEnvAt(h, from, from, ci.params), heap, fr.entry)
 		env.prev = fr.heapIn[h]
 		env.prevVars = fr.loopVarEnv(h, nil, ci.params)
 		goal := x.evalBool(env, clauseExpr(ci))
